@@ -1988,3 +1988,60 @@ pub fn f_table(max: usize, every: usize) -> Vec<Case> {
     }
     v
 }
+
+// ------------------------------------------------------------------------------------------------------------
+// F-TYPE (Luau): unions / intersections with one special member at a time, long names so that the hanging path is
+// reached at ordinary widths, in every type position
+// ------------------------------------------------------------------------------------------------------------
+pub fn f_type(thorough: bool) -> Vec<Case> {
+    let mut v = Vec::new();
+    let plain = ["ConnectionHandleType", "DisconnectedSentinel", "FallbackHandlerKind"];
+    let specials_union = ["(CallbackTable & { once: boolean })", "((value: number) -> string)", "(AlphaType | BetaType)", "{ field: number }", "OptionalMember?", "(Parenthesised)", "((nested: A) -> (B) -> C)", "typeof(value)", "\"literal\"", "Generic<Inner | Other>", "(A & B)?"];
+    let specials_inter = ["(CallbackTable | { once: boolean })", "((value: number) -> string)", "(AlphaType & BetaType)", "{ field: number }", "(OptionalMember?)", "(Parenthesised)", "Generic<Inner & Other>"];
+    let ctxs: &[(&str, &str)] = &[
+        ("type Listener = ", "\n"),
+        ("export type Listener<T> = ", "\n"),
+        ("local function f(argument: ", ") end\n"),
+        ("local function f(): ", " end\n"),
+        ("type Holder = { field: ", " }\n"),
+        ("type Holder = { [string]: ", " }\n"),
+        ("type Callback = (argument: ", ") -> ()\n"),
+        ("type Callback = () -> ", "\n"),
+        ("local value: ", " = nil\n"),
+        ("type Generic<T = ", "> = T\n"),
+        ("local x = y :: ", "\n"),
+        ("type Opt = (", ")?\n"),
+    ];
+    for (op, specials) in [("|", &specials_union[..]), ("&", &specials_inter[..])] {
+        for pos in 0..3 {
+            for sp in specials.iter() {
+                let mut members: Vec<&str> = plain.to_vec();
+                members[pos] = sp;
+                for n in [2usize, 3] {
+                    if pos >= n {
+                        continue;
+                    }
+                    let body = members[..n].join(&format!(" {} ", op));
+                    for lead in [false, true] {
+                        if lead && !thorough && pos != 0 {
+                            continue;
+                        }
+                        let body2 = if lead { format!("{} {}", op, body) } else { body.clone() };
+                        for (ci, (pre, post)) in ctxs.iter().enumerate() {
+                            // a leading operator is only valid directly after `=` of a type alias (and in a few other places the parser decides)
+                            if !thorough && ci >= 6 && pos == 1 {
+                                continue;
+                            }
+                            v.push(case("F-TYPE", Dial::Luau, format!("{}{}{}", pre, body2, post)));
+                        }
+                    }
+                }
+            }
+        }
+    }
+    // multi-line written forms (pipe at line start / line end)
+    for body in ["\n\t| ConnectionHandleType\n\t| (CallbackTable & Extra)\n\t| nil", "ConnectionHandleType |\n\tDisconnectedSentinel |\n\t((value: number) -> string)"] {
+        v.push(case("F-TYPE", Dial::Luau, format!("type Listener = {}\n", body)));
+    }
+    v
+}
